@@ -92,7 +92,7 @@ CFG = dict(
                "caller-buffer paths of every rolling feature agree for EVERY window (hypothesis 1 <= w dropped; window 0 rejected alike). "
                "REFUTED for the slice form at window 0 (C07_out_path_custom_window0_refuted): the lazy path underflows on `window - 1` "
                "before the assertion, so the two paths differ on every series and on the empty series one returns [] while the other "
-               "panics - the known row of the degenerate table in notes/C02.md, a clean panic in C10's sense. All model functions are functions of that logical sequence by construction. The container "
+               "panics - the known row of the degenerate table in notes/C02.md, a clean panic in C10's sense. Element type of the chunked model (2 further theorems, Proofs/LooseEnds.v): every C07_chunked_* law is quantified over an ARBITRARY element type, so it covers the hand-written Polars string impl (Vec1View<Option<&str>> for &ChunkedArray<StringType>, observed by c07pl.rs observe_str / tag pl_str against run_chunked) as it stands; only the interpreter is instantiated at float, and C07_chunked_accessors_natural_any_element / C07_chunked_observation_any_element prove that rendering the elements (strings as the numerals they spell) commutes with len / get / iteration / slices (sequence and chunk layout) and that run_chunked of the rendered array is the observation of the array itself, for every element type and rendering. All model functions are functions of that logical sequence by construction. The container "
                "semantics of std/ndarray/Polars are modelled; the tie is the accessor correspondence plus the exhaustive "
                "backend x container x path matrix run on the implementation. Second tie (translator): the bodies of the twelve `fn rolling*` of view.rs and the Vec / ndarray / Arc overrides are parsed from the Rust source on every run (tools/gen_tables_drv.py) and proved (Proofs/SrcTablesDrv.v, 23 axiom-free theorems, every window / series / pair of lengths) to denote exactly the guards (check2_default / check2_to / check2_custom, by assertion message), the call lists (args_iter, args_iter_idx, args_iter_idx2, slices_iter, calls_to, calls_to_idx, slices_to) and the backend routing of Model/Driver.v.",
     level_note="Trusted: Coq kernel; the container models (std VecDeque, ndarray views, Polars chunked arrays are external "
